@@ -5,11 +5,12 @@ STACK = ["stack-growing", "stack-fixed", "stack-static"]
 ITER = ["iter1", "iter2", "iter3", "iter4", "iter5", "iter3-static"]
 STATIC = ["static"]
 LIFO = ["lifo-static", "lifo-virtual", "lifo-fixed"]   # block sources driven directly
+ARENA = ["arena-%s-%s" % (s, c) for s in ("growing", "fixed") for c in ("cached", "uncached")]   # memory_arena driven directly
 POOL = ["pool-%s-%s" % (t, s) for t in ("node", "array", "small") for s in ("growing", "fixed")]
 COLL = ["coll-%s-%s-%s" % (t, d, s) for t in ("node", "array", "small") for d in ("identity", "log2") for s in ("growing", "fixed")]
 
 HARNESS = {}
-for s in STACK + ITER + STATIC + LIFO:
+for s in STACK + ITER + STATIC + LIFO + ARENA:
     HARNESS[s] = "subj_stack"
 for s in POOL + COLL:
     HARNESS[s] = "subj_pool"
